@@ -155,12 +155,19 @@ def run(ctx):
         ctx.count()
         ctx.mark(('reuse', maxchan), True)
         ctx.hist('kind=id-reuse')
+    for maxchan in (1, 2):
+        ins, outs = tg.reap_after_reuse(ctx, rng, 'C02', maxchan)
+        all_in.append(ins)
+        all_out.append(outs)
+        ctx.count()
+        ctx.mark(('reap-after-reuse', maxchan), True)
+        ctx.hist('kind=reap-after-reuse')
     kinds = ['app-first', 'dst-first', 'both', 'close-before-connect', 'half-close-then-reply', 'none']
     n = ctx.scale(60, 1500)
     for k in range(n):
         kind = kinds[k % len(kinds)]
         o = tg.Opts(nflows=rng.choice([1, 1, 2, 3]), steps=rng.randrange(5, 50), closes=True,
-                    latency=rng.random() < 0.3, bufsize=rng.choice([100, 2048, 32768]))
+                    latency=rng.random() < 0.3, bufsize=rng.choice([100, 2048, 32768]), epipe=(k % 3 == 1))
         ins, outs, nontrivial = scenario(ctx, rng, o, kind)
         all_in.append(ins)
         all_out.append(outs)
@@ -175,6 +182,12 @@ def run(ctx):
 
 
 def replay(ctx, rep):
+    if ':reuse:' in rep.get('key', ''):
+        c2 = type(ctx)(ctx.prop_id, 'quick', 0)
+        for maxchan in (1, 2):
+            tg.reap_after_reuse(c2, c2.rng, 'C02', maxchan)
+        hit = [v for v in c2.violations if v['key'] == rep.get('key')]
+        return bool(hit), (str(hit[0]['observed']) if hit else 'the new flow keeps its identifier and its bytes')
     s, wrote = tg.replay_script(rep['case']['script'])
     try:
         class Sc:
@@ -182,6 +195,7 @@ def replay(ctx, rep):
         sc = Sc()
         sc.t, sc.s = s.t, s
         sc.faulty, sc.wrote = set(), wrote
+        sc.refused = set(tuple(x) for x in rep.get('case', {}).get('refused', []))
         sc.written = lambda i, side: wrote.get((i, side), b'')
         c2 = type(ctx)(ctx.prop_id, 'quick', 0)
         tg.oracle_eof_order(c2, sc, 'C02', 'replay')
